@@ -1,0 +1,10 @@
+//go:build !verif
+
+package modbus
+
+import "net"
+
+// verifYield is a scheduling point used by the verification harness (build tag
+// "verif"); without the tag it does nothing.
+func verifYield(point string, sock net.Conn) {
+}
